@@ -236,7 +236,9 @@ def add_graph_io_target(eng):
     graph outputs and of non-initializer inputs`): graph_proto.input holds exactly one ValueInfoProto per graph input, in order,
     each filled by serialize_value_into from that input; the same for graph_proto.output and the graph outputs.  Everything the
     function does in between (initializers, nodes, value_info - which share serialize_value_into) leaves the two fields alone: the
-    invariants are carried through all five loops."""
+    invariants are carried through all five loops.  The same for graph_proto.node and the nodes of the graph (C03 `same node
+    order`): one NodeProto per node, in iteration order, each filled by serialize_node_into from that node (iterating from_ is
+    modelled as iterating the ghost sequence g_nodes of its nodes)."""
     import z3
     from pyvc.core import Exc
     from pyvc.sem_stmt import LoopSpec
@@ -247,7 +249,28 @@ def add_graph_io_target(eng):
     eng.add_class(ClassDecl("VField", fields={"slots": TSeq(TRef("VSlot"))}))
     eng.add_class(ClassDecl("GraphProtoIO", fields={"name": STR, "doc_string": STR, "input": TRef("VField"), "output": TRef("VField"),
                                                     "value_info": TRef("VField")}))
-    eng.add_class(ClassDecl("GraphLikeIO", fields={"inputs": TSeq(V), "outputs": TSeq(V)}))
+    eng.add_class(ClassDecl("GraphLikeIO", fields={"inputs": TSeq(V), "outputs": TSeq(V), "g_nodes": TSeq(TRef("Node"))}))
+    eng.add_class(ClassDecl("NSlot", fields={"nsrc": TRef("Node"), "nfilled": BOOL}))
+    eng.add_class(ClassDecl("NField", fields={"nslots": TSeq(TRef("NSlot"))}))
+    eng.classes["GraphProtoIO"].fields["node"] = TRef("NField")
+
+    def m_nadd(e, p, args, kwargs, node):
+        slot = e.new_object(p, "NSlot")
+        e.write_field(p, slot, "nfilled", VBool(False))
+        s = e.read_field(p, args[0], "nslots")
+        e.write_field(p, args[0], "nslots", VSeq(s.len + 1, [z3.Store(a, s.len, c) for a, c in zip(s.arrs, slot.comps())], s.elem))
+        return [(p, slot)]
+
+    def ser_node(e, p, args, kwargs, node):
+        slot = args[0]
+        n = kwargs.get("from_", args[1] if len(args) > 1 else None)
+        if not (isinstance(slot, VRef) and slot.cls == "NSlot") or not (isinstance(n, VRef) and n.cls == "Node"):
+            return [(p, VOpaque("serialize_node_into")), (p.copy(), Exc("AnyException", f"L{node.lineno}:serialize_node_into"))]
+        q = p.copy()
+        e.write_field(p, slot, "nsrc", n)
+        e.write_field(p, slot, "nfilled", VBool(True))
+        e.run_ghost(p, "g_n = g_n + 1")          # ghost: number of nodes serialized so far
+        return [(p, VNone()), (q, Exc("AnyException", f"L{node.lineno}:serialize_node_into"))]
 
     def m_add(e, p, args, kwargs, node):
         slot = e.new_object(p, "VSlot")
@@ -257,6 +280,7 @@ def add_graph_io_target(eng):
         return [(p, slot)]
     eng.method_models = dict(getattr(eng, "method_models", {}) or {})
     eng.method_models[("VField", "add")] = FnDecl("VField.add", "builtin", impl=m_add)
+    eng.method_models[("NField", "add")] = FnDecl("NField.add", "builtin", impl=m_nadd)
 
     def ser_value(e, p, args, kwargs, node):
         slot = args[0]
@@ -277,28 +301,51 @@ def add_graph_io_target(eng):
         e.lenient = True
         e.global_overrides = dict(e.global_overrides)
         e.global_overrides[(SER, "serialize_value_into")] = VFunc("py", ser_value, "serialize_value_into")
-        for name in ("serialize_tensor_into", "_should_create_value_info_for_value", "serialize_node_into", "_serialize_metadata_props_into",
+        e.global_overrides[(SER, "serialize_node_into")] = VFunc("py", ser_node, "serialize_node_into")
+        for name in ("serialize_tensor_into", "_should_create_value_info_for_value", "_serialize_metadata_props_into",
                      "_maybe_add_quantization_annotation"):
             e.global_overrides[(SER, name)] = known(name)
+        orig_iter = e.iter_extra
+
+        def iter_extra(v, p2):
+            if isinstance(v, VRef) and v.cls == "GraphLikeIO":
+                return e.read_field(p2, v, "g_nodes")
+            return orig_iter(v, p2)
+        e.iter_extra = iter_extra
     eng.spec_fn('''
+def n_prefix(slots, nodes, n):
+    return (len(slots) == n and
+            forall(lambda m=int: implies(0 <= m and m < n, nonnull(slots[m]) and allocated(slots[m]) and slots[m].nfilled and slots[m].nsrc is nodes[m])) and
+            forall(lambda m=int, k2=int: implies(0 <= m and m < k2 and k2 < n, slots[m] is not slots[k2])))
+
 def io_prefix(slots, vals, n):
     return (len(slots) == n and
             forall(lambda m=int: implies(0 <= m and m < n, nonnull(slots[m]) and allocated(slots[m]) and slots[m].filled and slots[m].src is vals[m])) and
             forall(lambda m=int, k2=int: implies(0 <= m and m < k2 and k2 < n, slots[m] is not slots[k2])))
 ''')
     IN, OUT = "graph_proto.input.slots", "graph_proto.output.slots"
-    wf = ["nonnull(graph_proto) and nonnull(from_) and nonnull(graph_proto.input) and nonnull(graph_proto.output) and nonnull(graph_proto.value_info)",
+    NS = "graph_proto.node.nslots"
+    wf = ["nonnull(graph_proto) and nonnull(from_) and nonnull(graph_proto.input) and nonnull(graph_proto.output) and nonnull(graph_proto.value_info) "
+          "and nonnull(graph_proto.node)",
+          "forall(lambda j=int: implies(0 <= j and j < len(from_.g_nodes), nonnull(from_.g_nodes[j])))",
           "graph_proto.input is not graph_proto.output and graph_proto.input is not graph_proto.value_info and "
           "graph_proto.output is not graph_proto.value_info",
           "forall(lambda j=int: implies(0 <= j and j < len(from_.inputs), nonnull(from_.inputs[j])))",
           "forall(lambda j=int: implies(0 <= j and j < len(from_.outputs), nonnull(from_.outputs[j])))"]
-    MOD = ["VField.slots", "VSlot.src", "VSlot.filled", "$alloc"]
+    MOD = ["VField.slots", "VSlot.src", "VSlot.filled", "NField.nslots", "NSlot.nsrc", "NSlot.nfilled", "$alloc"]
     ins_done = f"io_prefix({IN}, from_.inputs, len(from_.inputs))"
-    mid = LoopSpec(invariant=wf + [ins_done, f"len({OUT}) == 0"], modifies=MOD)
+    nodes_done = f"n_prefix({NS}, from_.g_nodes, len(from_.g_nodes))"
+    mid = LoopSpec(invariant=wf + [ins_done, f"len({OUT}) == 0", f"len({NS}) == 0 and g_n == 0"], modifies=MOD)
+    nodes = LoopSpec(invariant=wf + [ins_done, f"len({OUT}) == 0", "seq_eq(it, from_.g_nodes)", "g_n == k", f"n_prefix({NS}, from_.g_nodes, k)"],
+                     modifies=MOD)
+    node_outputs = LoopSpec(invariant=wf + [ins_done, f"len({OUT}) == 0", "0 <= g_n and g_n <= len(from_.g_nodes)",
+                                            f"n_prefix({NS}, from_.g_nodes, g_n)"], modifies=MOD)
     eng.add_target(Target("serialize_graph_into[inputs/outputs]", mod=SER, qual="serialize_graph_into", setup=setup,
         params=dict(graph_proto=TRef("GraphProtoIO"), from_=TRef("GraphLikeIO"), model_ir_version=TOpt(INT_)),
-        requires=wf + [f"len({IN}) == 0 and len({OUT}) == 0"],
-        loops={0: LoopSpec(invariant=wf + [f"io_prefix({IN}, from_.inputs, k)", "seq_eq(it, from_.inputs)", f"len({OUT}) == 0"], modifies=MOD),
-               2: mid, 3: mid, 4: mid,
-               5: LoopSpec(invariant=wf + [ins_done, f"io_prefix({OUT}, from_.outputs, k)", "seq_eq(it, from_.outputs)"], modifies=MOD)},
-        ensures=[ins_done, f"io_prefix({OUT}, from_.outputs, len(from_.outputs))"], raises_default=[], modifies=None, assert_mode="raise"))
+        requires=wf + [f"len({IN}) == 0 and len({OUT}) == 0 and len({NS}) == 0"],
+        ghost_init="g_n = 0",
+        loops={0: LoopSpec(invariant=wf + [f"io_prefix({IN}, from_.inputs, k)", "seq_eq(it, from_.inputs)", f"len({OUT}) == 0",
+                                           f"len({NS}) == 0 and g_n == 0"], modifies=MOD),
+               2: mid, 3: nodes, 4: node_outputs,
+               5: LoopSpec(invariant=wf + [ins_done, nodes_done, f"io_prefix({OUT}, from_.outputs, k)", "seq_eq(it, from_.outputs)"], modifies=MOD)},
+        ensures=[ins_done, nodes_done, f"io_prefix({OUT}, from_.outputs, len(from_.outputs))"], raises_default=[], modifies=None, assert_mode="raise"))
